@@ -194,6 +194,11 @@ def ledger_run(acc, cseed, alter, tmpdir):
     ud = gen_ud(rng, acc, alter is None)
     setup = os.path.join(tmpdir, "setup.json")
     final = os.path.join(tmpdir, "att.json")
+    if rng.random() < 0.3:
+        # in-place refresh: the attestation is written over the certificate it starts from
+        # (the same file, possibly spelled differently)
+        final = rng.choice([setup, os.path.join(tmpdir, ".", "setup.json")])
+        acc.count("attestations_written_over_their_input_file")
     pkout = os.path.join(tmpdir, "pk.txt")
     pkjson = os.path.join(tmpdir, "pk.json")
     for p in (setup, final, pkout, pkjson):
